@@ -136,6 +136,10 @@ def run_case(c):
     w.mode_error = c["mode"] == "unknown"
     w.onboarded = c["onb"]
     w.echo_ok = c["echo"]
+    if not c["echo"]:
+        k = (len(c.get("pin") or "") + len(c.get("answer") or "") + len(c["cmd"]) +
+             (1 if c["any_pin"] else 0)) % 4
+        w.echo_ok = [False, "hdr-cmd", "hdr-cla", "short"][k]
     w.unlocked = False
     w.pin = DEVICE_PIN
     w.post_mode = SIGNER
